@@ -307,10 +307,176 @@ def replay_precframe(d, quiet=False):
 def run(name, prop, tier, seed, known, lock):
     if name == 'precframe':
         return run_precframe(prop, tier, seed, known, lock)
+    if name == 'refine':
+        return run_refine(prop, tier, seed, known, lock)
     raise KeyError(name)
 
 
 def replay(d):
     if d.get('engine') == 'precframe':
         return replay_precframe(d)
+    if d.get('engine') == 'refine':
+        name = d['function'].split('.')[-1]
+        found = native_refinement_search(name, d.get('clause', '').endswith('prec'), budget_s=60)
+        if found is not None:
+            print('refinement contract of %s fails on %r: %s' % (name, found['args'], found['observed']))
+            print('VIOLATION property=%s replay=%s' % (d.get('property'), d.get('obligation')))
+            return 1
+        print('no failing input found for %s (static reason: %s)' % (name, d.get('solver_reason')))
+        return 0
     raise KeyError(d.get('engine'))
+
+
+# ======================================================================================= refinement pass
+
+def _refine_worker(args):
+    repo, want_bits = args
+    import threading
+    out = {}
+
+    def work():
+        from pyvc import refine
+        out['r'] = refine.run(repo, want_bits)
+    threading.stack_size(512 * 1024 * 1024)
+    t = threading.Thread(target=work)
+    t.start()
+    t.join()
+    return out.get('r')
+
+
+def native_refinement_search(name, want_bits, budget_s=20):
+    """bounded native search for an input on which libmp.<name> returns a non-canonical raw mpf
+    (or one longer than prec): grid of boundary values x precisions x rounding modes"""
+    import inspect
+    import itertools
+    import mpmath.libmp as L
+    from pyvc import gens
+    fn = None
+    for m in ('libmpf', 'libmpc', 'libmpi', 'libelefun', 'libhyper', 'gammazeta'):
+        mod = __import__('mpmath.libmp.' + m, fromlist=['x'])
+        if hasattr(mod, name):
+            fn = getattr(mod, name)
+            break
+    if fn is None:
+        return None
+    sig = inspect.signature(fn)
+    xs = [(0, 0, 0, 0), (0, 1, 0, 1), (1, 1, 0, 1), (0, 3, -1, 2), (0, 5, -3, 3), (1, 7, 2, 3),
+          (0, (1 << 70) + 1, -70, 71), (1, (1 << 70) + 1, -65, 71), (0, (1 << 120) - 1, -118, 120),
+          (0, 1, 10, 1), (0, 123456789, -20, 27)]
+    if name.startswith(('mpc_', 'mpci_')):
+        mk = lambda v: (v, xs[(xs.index(v) + 3) % len(xs)])
+    elif name.startswith('mpi_'):
+        mk = lambda v: (v, v)
+    else:
+        mk = lambda v: v
+    if name.startswith('mpci_'):
+        mk = lambda v: ((v, v), (xs[(xs.index(v) + 3) % len(xs)],) * 2)
+    space = []
+    names = []
+    for pn, p in sig.parameters.items():
+        if pn == 'prec':
+            space.append((1, 2, 5, 20, 53))
+        elif pn in ('rnd', 'rounding'):
+            space.append(('n', 'f', 'c', 'u', 'd'))
+        elif pn in ('n', 'k', 'm'):
+            space.append((0, 1, 2, 3, 5, -1, -2))
+        elif p.default is not inspect.Parameter.empty:
+            space.append((p.default,))
+        else:
+            space.append([mk(v) for v in xs])
+        names.append(pn)
+    t0 = time.time()
+    pi = names.index('prec') if 'prec' in names else None
+    for combo in itertools.product(*space):
+        if time.time() - t0 > budget_s:
+            break
+        try:
+            r = fn(*combo)
+        except Exception:
+            continue
+        prec = combo[pi] if pi is not None else None
+        bad = _bad_component(r, prec if want_bits else None)
+        if bad is not None:
+            return {'args': dict(zip(names, combo)), 'result': r, 'observed': bad}
+    return None
+
+
+def _bad_component(r, prec):
+    def raw(v):
+        return isinstance(v, tuple) and len(v) == 4 and all(isinstance(x, int) for x in v)
+    if raw(r):
+        s, m, e, b = r
+        if m == 0:
+            if r not in ((0, 0, 0, 0), (0, 0, -123, -1), (0, 0, -456, -2), (1, 0, -789, -3)):
+                return 'non-canonical special %r' % (r,)
+            return None
+        if s not in (0, 1) or m < 0 or m % 2 == 0 or b != m.bit_length():
+            return 'non-canonical %r' % (r,)
+        if prec is not None and b > prec:
+            return 'mantissa of %d bits at prec=%d' % (b, prec)
+        return None
+    if isinstance(r, (tuple, list)):
+        for x in r:
+            bb = _bad_component(x, prec)
+            if bb is not None:
+                return bb
+    return None
+
+
+def run_refine(prop, tier, seed, known, lock):
+    t0 = time.time()
+    os.environ.setdefault('MPMATH_NOGMPY', '1')
+    for p in (REPO, HERE):
+        if p not in sys.path:
+            sys.path.insert(0, p)
+    want_bits = (prop == 'C10')
+    ctx = mp.get_context('fork')
+    with ctx.Pool(1) as pool:
+        r = pool.map(_refine_worker, [(REPO, want_bits)])[0]
+    from pyvc.check import write_replay, finding_matches
+    out = {'obligations': 0, 'discharged': 0, 'records': [], 'violations': [], 'undecided': [],
+           'known_hits': [], 'errors': [], 'samples': [], 'functions': [], 'assumptions': [
+               'refinement pass: every raw mpf reaching a libmp function through its parameters is canonical (established at the public boundary by the constructors under contract)',
+               'refinement pass: unmodelled code is havocked; a function is counted only if every returning path is justified; mutual recursion is resolved coinductively (partial correctness)',
+           ], 'coverage': {}}
+    if r is None:
+        out['errors'].append('refinement pass crashed')
+        return out
+    clause = 'canonical+bits<=prec' if want_bits else 'canonical'
+    for n in r['verified']:
+        key = 'refine|%s|%s' % (n, clause)
+        rec = {'name': key, 'kind': 'refine', 'clause': clause, 'status': 'proved', 'solver': 'z3',
+               'paths': r['paths'].get(n)}
+        out['records'].append((key, rec, {'target': 'mpmath.libmp.' + n, 'enum': {}}))
+        out['functions'].append('mpmath.libmp.%s (refinement contract)' % n)
+        if len(out['samples']) < 4:
+            out['samples'].append({'obligation': key, 'paths': r['paths'].get(n), 'status': 'proved'})
+    for n, why in r['unverified'].items():
+        key = 'refine|%s|%s' % (n, clause)
+        rec = {'name': key, 'kind': 'refine', 'clause': clause, 'status': 'unknown', 'reason': '; '.join(why)[:300],
+               'line': None}
+        unit = {'target': 'mpmath.libmp.' + n, 'enum': {}, 'file': None}
+        kf = [k for k in known.get('findings', []) if finding_matches(k, prop, key, rec)]
+        if kf:
+            out['records'].append((key, rec, unit))
+            out['known_hits'].append((kf[0], key, rec))
+            continue
+        if key in lock:
+            out['records'].append((key, rec, unit))
+            found = native_refinement_search(n, want_bits)
+            rec['engine'] = 'refine'
+            if found is not None:
+                rec['model_args'] = {k: repr(v) for k, v in found['args'].items()}
+                rec['replay'] = {'status': 'reproduced', 'observed': found['observed'], 'result': repr(found['result'])}
+                path = write_replay(prop, unit, rec, 'refinement contract of %s no longer holds; bounded native search found a failing input' % n)
+                out['violations'].append((key, rec, path, ''))
+            else:
+                path = write_replay(prop, unit, rec, 'refinement contract of %s was discharged on the committed tree and is not any more: %s' % (n, rec['reason']))
+                out['violations'].append((key, rec, path, ' no-failing-input-found'))
+        # functions never typed are only listed
+    out['obligations'] = len(out['records'])
+    out['discharged'] = sum(1 for k, rc, u in out['records'] if rc['status'] == 'proved')
+    out['coverage'] = {'verified': len(r['verified']), 'unverified_listed': sorted(r['unverified']),
+                       'unverified_reasons': {k: v[:2] for k, v in list(r['unverified'].items())[:60]},
+                       'fixpoint_rounds': r['rounds'], 'wall_s': round(time.time() - t0, 1)}
+    return out
